@@ -2,6 +2,7 @@
 from engine.mir import CalleeView, norm
 from engine.origin import Origin, strip, core, nosite, show, walk, root
 from engine.paths import Exits, must_pass, witness_path, reachable_after, switch_atom
+from rules import c01
 
 PROPERTY = "C09"
 EXPLANATION = ("Static rules on DirSection and its users: (seek-targets) every Seek::seek is SeekFrom::Start of either "
@@ -306,6 +307,14 @@ def rule_append_flush(ctx, R="C09/append-flush"):
         okv = v[0] == "call" and v[1].endswith("Buffer::position") and root(v[2][0]) == ("param", 2)
         ctx.check(okv, R, ("store", "value"), b.where(bi, si), "last_position_written_to_file <- buffer.position()",
                   "last_position_written_to_file is set to %s" % show(v)[:120])
+        # ... read while the image still has the length that was appended: no call that can grow the image (anything handed the buffer
+        # mutably — dump_dir_entry's set_value_at/write_at may extend it) lies between the append and the read of position()
+        if okv and len(v) > 3 and v[3]:
+            ps = v[3][1]
+            between = (b.reachable_from(w, unwind=False) & c01.can_reach(b, ps)) - {w, ps}
+            grow = sorted(b.where(x) for x in between if b.term(x)["k"] == "call" and c01.buffer_mut_arg(b.term(x)))
+            ctx.check(not grow, R, ("store", "mark-is-appended-length"), b.where(bi, si), "position() is read before anything else can change the image after the append",
+                      "the mark is read after call(s) that may grow the image (%s): bytes added there are counted as flushed although they never reached the destination at their place" % ", ".join(grow))
         # only after the write succeeded: the store is dominated by the Continue edge of the write's `?`
         cont = success_successor(b, w)
         okd = cont is not None and b.dominates(cont, bi)
